@@ -13,8 +13,20 @@ void vt_native_assume(int);
 #endif
 int vt_thrown;
 /* allocation never fails (allocation failure is outside every claim) */
+#if defined(VT_NEW_CAP) && defined(__CPROVER__)
+/* Query option new_cap: every untyped operator new returns a block of exactly VT_NEW_CAP bytes (requests above the cap
+ * are a reported bound violation). Symbolic-size heap objects make the formula explode; the price is that overruns
+ * inside the slack between the requested size and the cap are not detected in such queries (stated in the evidence). */
+uint8_t *_Znwm(uint64_t n)
+{
+    if (n > VT_NEW_CAP) { __CPROVER_assert(0, "bounded std model capacity exceeded (operator new above VT_NEW_CAP)"); __CPROVER_assume(0); }
+    uint8_t *p = malloc(VT_NEW_CAP); __CPROVER_assume(p != 0); return p;
+}
+uint8_t *_Znam(uint64_t n) { return _Znwm(n); }
+#else
 uint8_t *_Znwm(uint64_t n) { uint8_t *p = malloc(n); __CPROVER_assume(p != 0); return p; }
 uint8_t *_Znam(uint64_t n) { uint8_t *p = malloc(n); __CPROVER_assume(p != 0); return p; }
+#endif
 void _ZdlPv(uint8_t *p) { free(p); }
 void _ZdaPv(uint8_t *p) { free(p); }
 void _ZdlPvm(uint8_t *p, uint64_t n) { free(p); }
